@@ -42,8 +42,13 @@ type ExtractCase struct {
 	Syscall string `json:"syscall,omitempty"`
 	When    int    `json:"when,omitempty"`
 	Errno   string `json:"errno,omitempty"`
-	Digest  string `json:"digest,omitempty"` // "" = sha512-256 | sha256: index, store objects and `desync --digest sha256`
-	Bad     string `json:"bad,omitempty"`    // self-test only: "unlink-dest" = the harness removes the destination after the death
+	// destination name: NameLen = 0 is "blob", otherwise a name of that many bytes (1..255; from 244 on
+	// "."+name+".<10 digits>" no longer fits NAME_MAX); DirDepth nests the output directory that many
+	// 100-byte directories deep (the path stays far below PATH_MAX: the name limit is the one met)
+	NameLen  int    `json:"name_len,omitempty"`
+	DirDepth int    `json:"dir_depth,omitempty"`
+	Digest   string `json:"digest,omitempty"` // "" = sha512-256 | sha256: index, store objects and `desync --digest sha256`
+	Bad      string `json:"bad,omitempty"`    // self-test only: "unlink-dest" = the harness removes the destination after the death
 }
 
 func (c ExtractCase) straced() bool { return c.Death == "strace-kill" || c.Death == "strace-err" }
@@ -315,6 +320,8 @@ func (c ExtractCase) normalise() ExtractCase {
 	if c.Digest != "sha256" {
 		c.Digest = ""
 	}
+	c.NameLen = max(0, min(c.NameLen, 255))
+	c.DirDepth = max(0, min(c.DirDepth, 25))
 	switch c.Death {
 	case "err":
 	case "strace-kill", "strace-err":
@@ -380,9 +387,19 @@ func runExtract(c ExtractCase) (o hx.Outcome) {
 	defer os.RemoveAll(work)
 	index := filepath.Join(work, "index.caibx")
 	os.WriteFile(index, ref.EncodeIndex(idxf), 0o644)
-	outDir := filepath.Join(work, "out")
+	outDir := filepath.Join(work, "out") // the directory of the destination
+	for i := 0; i < c.DirDepth; i++ {
+		outDir = filepath.Join(outDir, strings.Repeat(string(rune('a'+i%26)), 100))
+	}
 	os.MkdirAll(outDir, 0o755)
-	out := filepath.Join(outDir, "blob")
+	name := "blob"
+	if c.NameLen > 0 {
+		name = ("blob" + strings.Repeat("x", 255))[:c.NameLen]
+	}
+	out := filepath.Join(outDir, name)
+	if len(out)+16 >= 4096 {
+		infra("scratch directory too deep for dir_depth %d: destination path has %d bytes", c.DirDepth, len(out))
+	}
 	var prior []byte
 	switch c.Prior {
 	case "empty":
@@ -454,6 +471,28 @@ func runExtract(c ExtractCase) (o hx.Outcome) {
 		o.Key += fmt.Sprintf("/%s/%d/%s", c.Syscall, c.When, c.Errno)
 	}
 	o.Class("extract", "extract:death="+c.Death, "extract:prior="+c.Prior)
+	if c.NameLen > 0 || c.DirDepth > 0 {
+		desc := o.Desc.(map[string]any)
+		desc["name_len"], desc["dir_depth"] = len(name), c.DirDepth
+		o.Key += fmt.Sprintf("/name%d/%d", len(name), c.DirDepth)
+		o.Class("extract:dest-name=" + strconv.Itoa(len(name)))
+		if c.DirDepth > 0 {
+			o.Class("extract:deep-dir")
+		}
+		if len(name) >= 244 { // no room for a temporary called .<name>.<random> next to it
+			o.Class("extract:dest-name>=244")
+			switch {
+			case c.Inplace:
+				o.Class("extract:dest-name>=244:inplace")
+			case c.Prior != "absent":
+				o.Class("extract:dest-name>=244:prior-exists")
+			}
+			if !killed && res.Exit != 0 && strings.Contains(res.Stderr, "name too long") {
+				// refusing is fine: an error, and the destination as it was (checked below like any other death)
+				o.Class("extract:dest-name>=244:refused")
+			}
+		}
+	}
 	if sha {
 		o.Class("extract:digest=sha256")
 		o.Desc.(map[string]any)["digest"] = "sha256"
@@ -563,7 +602,7 @@ func runExtract(c ExtractCase) (o hx.Outcome) {
 	if !c.Inplace {
 		if d := before.diff(after); d != "" {
 			o.Fail("C08:extract:dest-touched", "extract without -k died (%s at request %d, %d chunks served, n=%d) and the destination changed: %s; directory now holds %v",
-				c.Death, c.K, served, c.N, d, listFiles(outDir))
+				c.Death, c.K, served, c.N, d, maskNames(listFiles(outDir)))
 		}
 		return o
 	}
@@ -622,9 +661,27 @@ func runExtract(c ExtractCase) (o hx.Outcome) {
 func maskNames(l []string) []string {
 	out := make([]string, len(l))
 	for i, s := range l {
-		out[i] = reDigits.ReplaceAllString(s, "N")
+		out[i] = squeeze(reDigits.ReplaceAllString(s, "N"))
 	}
 	return out
+}
+
+// squeeze renders runs of 16 or more equal bytes as c{n} (long generated names in messages).
+func squeeze(s string) string {
+	var b strings.Builder
+	for i := 0; i < len(s); {
+		j := i
+		for j < len(s) && s[j] == s[i] {
+			j++
+		}
+		if j-i >= 16 {
+			fmt.Fprintf(&b, "%c{%d}", s[i], j-i)
+		} else {
+			b.WriteString(s[i:j])
+		}
+		i = j
+	}
+	return b.String()
 }
 
 func firstDiff(a, b []byte) int {
